@@ -122,6 +122,21 @@ func main() {
 				if !bb.Contains(p) {
 					c.Failf("bound-around", "NewBoundAroundPoint(%v, %v) = %v does not contain its centre", p, d, bb)
 				}
+				// closed form of the box around a small circle: d/R of latitude either way, and asin(sin(d/R)/cos(lat))
+				// of longitude (the easternmost point of the circle lies poleward of due east)
+				if rd := d / 6378137.0; math.Abs(p[1])+rd*180/math.Pi < 89 {
+					dlat := rd * 180 / math.Pi
+					dlon := math.Asin(math.Sin(rd)/math.Cos(p[1]*math.Pi/180)) * 180 / math.Pi
+					if math.Abs(bb.Min[1]-(p[1]-dlat)) > 1e-9 || math.Abs(bb.Max[1]-(p[1]+dlat)) > 1e-9 || math.Abs(bb.Min[0]-(p[0]-dlon)) > 1e-9 || math.Abs(bb.Max[0]-(p[0]+dlon)) > 1e-9 {
+						c.Failf("bound-around", "NewBoundAroundPoint(%v, %v) = %v, the closed form is [%v %v] [%v %v]", p, d, bb, p[0]-dlon, p[1]-dlat, p[0]+dlon, p[1]+dlat)
+					}
+				}
+				for deg := -180.0; deg < 180; deg += 3 {
+					if q := geo.PointAtBearingAndDistance(p, deg, d); !bb.Pad(1e-9).Contains(q) {
+						c.Failf("bound-around", "NewBoundAroundPoint(%v, %v) = %v does not contain %v, which lies %v m from the centre on bearing %v", p, d, bb, q, d, deg)
+						break
+					}
+				}
 				for _, b := range bearings {
 					q := geo.PointAtBearingAndDistance(p, b, d)
 					if !bb.Pad(1e-9).Contains(q) {
